@@ -49,7 +49,7 @@ CHECKS['C06'] = dict(cat='model_checking', tech='SMT (z3 sequence theory) inject
    note='binding of the signature to M\' rests on SHAKE256 (oracle).', ref='DESIGN.md §5 C06')
 CHECKS['C08'] = dict(cat='model_checking', tech='bounded model checking of the real codecs (Kani/CBMC, SAT) against spec-literal Algorithms 16-21; per-loop unwind bounds from cbmc --show-loops',
    text='Hint decoder (reduced K=2, omega=8, same generic code): for every value of both count bytes and a 4-byte index window the real HintBitUnpack agrees with Algorithm 21 (accept/reject and decoded hint). Coefficient codecs: for every byte string of a polynomial BitUnpack equals the FIPS bit formula and BitPack reproduces the bytes (t1; thorough: t0, z); adjacent in-range coefficient pairs round-trip at every position (eta, w1 ranges). E2 layout obligations (per parameter set, loop index symbolic): sig_decode / sig_encode / sk_decode / sk_encode / pk_decode / w1_encode hand exactly the FIPS byte ranges to the (un)packers with the FIPS (a, b). A native differential at the real (K, omega) confirms counterexamples.',
-   note='quick tier runs a seed-selected subset (each harness costs 7-17 min of CBMC); thorough runs all incl. exhaustive K=2, omega=4.', ref='DESIGN.md §5 C08')
+   note='quick tier (below 15 min): E2 layout + hint loop-step lemmas (K, omega symbolic), one seed-selected adjacent-pair round-trip harness, native codec differential; thorough: all K=2 windows, the K=3 count harness, all-bytes bijections, all round trips, exhaustive K=2, omega=4 (best effort).', ref='DESIGN.md §5 C08')
 CHECKS['C09'] = dict(cat='model_checking', tech=_SK + ' for expand_* / into_bytes + closure lemmas; composition with C18 / C08',
    text='The deserialise / serialise paths are shown to be decode; NTT; to_mont and mont_reduce; invNTT; re-centre / >> d; encode with the right fields, and each per-coefficient step is inverted exactly (SMT, every coefficient value, incl. t1 = 1023).',
    note='transform inversion and codec bijectivity are C18 / C08 / C10 obligations.', ref='DESIGN.md §5 C09')
